@@ -32,7 +32,7 @@ def run(ck):
     ck.rule("C15.R3", "each received Line is written with exactly one write_all; handlers agree", floor=8)
     ck.rule("C15.R4", "an I/O error affects only its batch; flush on every Ok batch", floor=3)
     ck.rule("C15.R5", "shutdown ordering; guard drop waits for the worker", floor=4)
-    ck.rule("C15.R6", "dropped-lines counter saturates", floor=2)
+    ck.rule("C15.R6", "dropped-lines counter saturates and loses no increment", floor=3)
     r1(ck, F)
     r2(ck, F)
     r3(ck, F)
@@ -318,6 +318,37 @@ def r6(ck, F):
         ck.ok("C15.R6", "CAS loop with saturating_add (never wraps)", fn=b.path)
     else:
         ck.bad("C15.R6", "CAS loop with saturating_add (never wraps)", where(b.raw["sp"]), "calls %s" % names, fn=b.path)
+    # every dropped line is counted: the only ways out of the loop are a successful CAS or a saturated counter; a
+    # failed CAS retries with the value it observed
+    key = "a failed compare_exchange retries with the observed value (no increment is lost)"
+    if "fetch_update" in names and "compare_exchange" not in names:
+        ck.ok("C15.R6", key, fn=b.path, detail="fetch_update idiom")
+    else:
+        lost = []
+        retried = False
+        for p in PathEval(b, max_visits=2).run():
+            cas = [c for c in p.calls if c[1].get("method") == "compare_exchange"]
+            if not cas:
+                continue
+            failed_last = False
+            for c in cas:
+                tests = [x for x in p.conds if x[0][0] == "discr" and x[0][1] == c[3]]
+                failed_last = bool(tests) and tests[0][1] == 1
+            if p.end == "return" and failed_last:
+                sat = any("MAX" in show(x[0]) and x[1] != 0 for x in p.conds[-2:])
+                if not sat:
+                    lost.append("returns after a failed compare_exchange without retrying")
+            if len(cas) >= 2:
+                first, second = cas[0], cas[1]
+                exp = show(second[2][1]) if len(second[2]) > 1 else ""
+                if "compare_exchange(" in exp and "Err" in exp:
+                    retried = True
+                elif exp:
+                    lost.append("the retry compares against %s, not the value the failed CAS observed" % exp[:80])
+        if lost or not retried:
+            ck.bad("C15.R6", key, where(b.raw["sp"]), "; ".join(sorted(set(lost))) or "no retry path found: a concurrent increment makes this one vanish", fn=b.path)
+        else:
+            ck.ok("C15.R6", key, fn=b.path)
     if early:
         ck.ok("C15.R6", "early return at usize::MAX", fn=b.path)
     else:
